@@ -28,3 +28,105 @@ pub(crate) fn point(label: &'static str) {
         (h.point)(label);
     }
 }
+
+/// `RwLock` stand-in used under `cfg(folo_verif)`: every outermost acquisition is a scheduling
+/// point of the harness (labelled per protected type, see `LockLabels`), so a lock acquisition added by a later change is
+/// covered without anybody remembering to add a `point` call next to it. Acquisitions nested
+/// inside another guard of this type are not points: a descheduled thread must never hold a real
+/// lock.
+pub struct RwLock<T> {
+    inner: std::sync::RwLock<T>,
+}
+
+/// The labels under which acquisitions of a lock around this type are reported to the harness.
+pub trait LockLabels {
+    const READ: &'static str;
+    const WRITE: &'static str;
+}
+
+thread_local! {
+    static GUARD_DEPTH: std::cell::Cell<u32> = const { std::cell::Cell::new(0) };
+}
+
+fn depth_add(delta: i32) -> u32 {
+    GUARD_DEPTH
+        .try_with(|d| {
+            let before = d.get();
+            d.set(before.saturating_add_signed(delta));
+            before
+        })
+        .unwrap_or(0)
+}
+
+pub struct ReadGuard<'a, T>(std::sync::RwLockReadGuard<'a, T>);
+pub struct WriteGuard<'a, T>(std::sync::RwLockWriteGuard<'a, T>);
+
+impl<T: LockLabels> RwLock<T> {
+    pub fn new(value: T) -> Self {
+        Self {
+            inner: std::sync::RwLock::new(value),
+        }
+    }
+
+    pub fn read(&self) -> std::sync::LockResult<ReadGuard<'_, T>> {
+        if depth_add(0) == 0 {
+            point(T::READ);
+        }
+        let r = match self.inner.read() {
+            Ok(g) => Ok(ReadGuard(g)),
+            Err(p) => Err(std::sync::PoisonError::new(ReadGuard(p.into_inner()))),
+        };
+        depth_add(1);
+        r
+    }
+
+    pub fn write(&self) -> std::sync::LockResult<WriteGuard<'_, T>> {
+        if depth_add(0) == 0 {
+            point(T::WRITE);
+        }
+        let r = match self.inner.write() {
+            Ok(g) => Ok(WriteGuard(g)),
+            Err(p) => Err(std::sync::PoisonError::new(WriteGuard(p.into_inner()))),
+        };
+        depth_add(1);
+        r
+    }
+
+    /// For the read-only probes of the harness: no scheduling point.
+    pub fn probe(&self) -> &std::sync::RwLock<T> {
+        &self.inner
+    }
+}
+
+impl<T> Drop for ReadGuard<'_, T> {
+    fn drop(&mut self) {
+        depth_add(-1);
+    }
+}
+impl<T> Drop for WriteGuard<'_, T> {
+    fn drop(&mut self) {
+        depth_add(-1);
+    }
+}
+impl<T> std::ops::Deref for ReadGuard<'_, T> {
+    type Target = T;
+    fn deref(&self) -> &T {
+        &self.0
+    }
+}
+impl<T> std::ops::Deref for WriteGuard<'_, T> {
+    type Target = T;
+    fn deref(&self) -> &T {
+        &self.0
+    }
+}
+impl<T> std::ops::DerefMut for WriteGuard<'_, T> {
+    fn deref_mut(&mut self) -> &mut T {
+        &mut self.0
+    }
+}
+impl<T: std::fmt::Debug> std::fmt::Debug for RwLock<T> {
+    fn fmt(&self, f: &mut std::fmt::Formatter<'_>) -> std::fmt::Result {
+        self.inner.fmt(f)
+    }
+}
